@@ -7,6 +7,19 @@ HERE = os.path.dirname(os.path.dirname(os.path.abspath(__file__)))
 
 # id -> (category, technique, text, note, design_ref)
 CHECKS = {
+    "C15": (
+        "exploration",
+        "bounded exhaustive enumeration of demultiplexing configurations x reads with 0/1/2 adapter matches through cli.main; differential against the run without demultiplexing; 2-core runs under the virtual scheduler",
+        "{name}: 1-3 named R1 adapters (3' and 5' mixed) x --times {1,2} x {none,--discard-untrimmed,--untrimmed-output} x {no filter,-m} "
+        "x {single,paired}; {name1}/{name2}: every 1-3 x 1-3 combination of R1/R2 adapter counts x --times x {none,--discard-untrimmed}. "
+        "Corpus: reads with no adapter, each adapter in full / partial / one-mismatch form, and every ordered pair of two different "
+        "adapters (with --times 2 the last match decides). Oracle: the set of created files equals the set of names / name combinations "
+        "(+ unknown as documented), every record sits in the file of its last R1 match (pair of last-match names), and the multiset of "
+        "records over all demultiplexed files equals the output of the same command without {name}. Eight scenarios are additionally "
+        "run with 2 cores under the virtual scheduler (default schedule and every schedule with one deviation).",
+        "Trusted: adapter matching (C01/C02), best-of/rounds rule (C09), virtual scheduler (C06).",
+        "DESIGN.md section 3, C15",
+    ),
     "C04": (
         "exploration",
         "bounded exhaustive enumeration of (option set x predicate vector) states through cli.main; independent parse of every output file and report",
